@@ -180,7 +180,7 @@ func vxObserveBytes(label string, b []byte) {
 
 // vxQuiesce: natively there is no scheduler to ask; give the background
 // goroutines time to block.
-func vxQuiesce()           { time.Sleep(30 * time.Millisecond) }
+func vxQuiesce()           { time.Sleep(60 * time.Millisecond) }
 func vxYield()             { time.Sleep(time.Millisecond) }
 func vxReach(label string) {}
 func vxSymbolic() bool     { return false }
@@ -244,6 +244,7 @@ func TestVxReplay(t *testing.T) {
 	case <-time.After(60 * time.Second):
 		vxState.out.Done = false
 	}
+	vxNativeCleanup()
 	vxState.Lock()
 	ob, _ := json.Marshal(vxState.out)
 	vxState.Unlock()
